@@ -15,6 +15,13 @@ func configure(g *gen) {
 			{"index", "int8", "index", tInt8},
 			{"writer", "responseWriter", "writer", T{"struct", "RW"}},
 		}, Extra: []string{"handlers : List Unit := []", "ghost : γ"}},
+		// route_cache.go: container/list and the map are the abstract data types GoRt.LList (elements with
+		// identity, front first) and GoRt.HMap (key -> element)
+		{Go: "cachedRoutes", Lean: "CR", Params: "(ρ : Type)", LeanT: "CR ρ", Derive: "Inhabited", Fields: []FieldSpec{
+			{"size", "int", "size", tInt},
+			{"list", "*list.List", "list", T{"opaque", "GoRt.LList ρ"}},
+			{"hashMap", "map[string]*list.Element", "hashMap", T{"opaque", "GoRt.HMap"}},
+		}},
 		{Go: "Router", Lean: "Router", Fields: []FieldSpec{
 			{"strictLastSlash", "bool", "strictLastSlash", tBool},
 			{"interceptAll", "string", "interceptAll", tStr},
@@ -52,6 +59,29 @@ func configure(g *gen) {
 				Value: "%t.1", T: tStrList},
 			{Callee: "$.stableRoutes[]", Value: "(env.stable s %1)", T: T{"opaque", "Option ρ"}},
 		}})
+	// route_cache.go
+	elem := T{"opaque", "Option Nat"} // *list.Element / *cacheNode: nil or the identity of a list element
+	crExts := []Ext{
+		{Callee: "$.lock.Lock", Ignore: true}, {Callee: "$.lock.Unlock", Ignore: true},
+		{Callee: "$.lock.RLock", Ignore: true}, {Callee: "$.lock.RUnlock", Ignore: true},
+		{Callee: "$.hashMap[]", Value: "($.hashMap.get %1)", T: elem},
+		{Callee: "$.hashMap[]=", Effect: "{ $ with hashMap := $.hashMap.set %1 %2 }"},
+		{Callee: "delete($.hashMap)", Effect: "{ $ with hashMap := $.hashMap.del %1 }"},
+		{Callee: "$.list.MoveToFront", Effect: "{ $ with list := $.list.moveToFront %1 }"},
+		{Callee: "$.list.Remove", Effect: "{ $ with list := $.list.remove %1 }"},
+		{Callee: "$.list.PushFront", Stmts: []string{"let %t := $.list.pushFront %1", "$ := { $ with list := %t.1 }"}, Value: "%t.2", T: elem},
+		{Callee: "$.list.Len", Value: "$.list.len", T: tInt},
+		{Callee: "$.list.Back", Value: "$.list.back", T: elem},
+		{Callee: "_.Value.(*cacheNode)", Value: "%1", T: elem},
+		{Callee: "_.Value=", Effect: "{ $ with list := $.list.setVal %1 %2 }"},
+		{Callee: "_.Value", Value: "($.list.valOf %1)", T: T{"opaque", "Option ρ"}},
+		{Callee: "_.Key", Value: "($.list.keyOf %1)", T: tStr},
+	}
+	add(FnSpec{Recv: "cachedRoutes", Func: "Len", Lean: "CR.Len", Exts: crExts})
+	add(FnSpec{Recv: "cachedRoutes", Func: "Set", Lean: "CR.Set", Exts: crExts, Mutates: true})
+	add(FnSpec{Recv: "cachedRoutes", Func: "Get", Lean: "CR.Get", Exts: crExts, Mutates: true})
+	add(FnSpec{Recv: "cachedRoutes", Func: "Delete", Lean: "CR.Delete", Exts: crExts, Mutates: true})
+	add(FnSpec{Recv: "cachedRoutes", Func: "Has", Lean: "CR.Has", Exts: crExts, Mutates: true})
 	// response_wirter.go
 	add(FnSpec{Recv: "responseWriter", Func: "reset", Lean: "RW.reset", Exts: []Ext{
 		// w.Writer = w2: a new underlying writer, nothing has reached it yet
